@@ -154,6 +154,20 @@ def gen_targeted():
     return [(l, with_auth(l, ev)) for l, ev in gen_targeted_raw()] + gen_targeted_auth() + gen_targeted_reload() + gen_targeted_padding()
 
 
+def gen_callee_leaves():
+    """a callee disconnects with k calls of one caller outstanding (and j to another callee): the k slots are usable at once -
+    the caller can make exactly limit - j further calls, the next one is refused; the caller got k NoReply errors"""
+    out = []
+    for v in (1, 2, 3, 4):
+        for k in range(1, v + 1):
+            j = v - k
+            ev = ["C0", "U0", "H0", "C0", "U1", "H1", "C0", "U2", "H2", "C0", "U3", "H3"]
+            ev += ["K1,2,%d,0,0" % (1000 + i) for i in range(k)] + ["K1,3,%d,0,0" % (1100 + i) for i in range(j)]
+            ev += ["K1,0,1200,0,0", "D2"] + ["K1,%d,%d,0,0" % (0 if i % 2 else 3, 1300 + i) for i in range(k)] + ["K1,0,1400,0,0", "Y3,1,1300" if k >= 1 else "N", "K1,0,1401,0,0", "D3", "K1,0,1500,0,0", "N"]
+            out.append((lim(replies=v), ev))
+    return out
+
+
 def gen_targeted_padding():
     """the size test at the byte level: total wire length = 16 + header field array + 0..7 bytes of padding + body.  For every
     padding, both byte orders, a registered and an unregistered sender: every length from max-9 to max passes (sender
@@ -735,9 +749,16 @@ def run(ctx):
         add("replay", [(tuple(d["limits"]), list(d["events"]), d.get("reply_timeout"))])
     else:
         add("corpus", load_corpus())
-        add("targeted", gen_targeted())
+        targeted = gen_targeted()
+        add("targeted", targeted)
+        # the histories with calls and departures again under a FINITE reply_timeout (so long that nothing expires by time
+        # during the history): the expiry timer of the pending-reply list is then running while a callee disconnects
+        add("targeted-finite-timeout", [(l, ev, rnd.choice((300000, 120000, 3600000))) for l, ev in targeted
+                                        if any(e[0] == "K" for e in ev) and any(e[0] == "D" for e in ev)])
+        add("callee-leaves", [(l, ev, rt) for l, ev in gen_callee_leaves() for rt in (None, 300000)])
         add("timeout", [(l, ev, rt) for l, rt, ev in TIMEOUT_LEG])
-        add("random", [gen_random(rnd, rnd.choice((15, 25, 40))) for _ in range(1500 if quick else 30000)])
+        rand = [gen_random(rnd, rnd.choice((15, 25, 40))) for _ in range(1500 if quick else 30000)]
+        add("random", [(l, ev, 300000 if i % 3 == 0 else None) for i, (l, ev) in enumerate(rand)])
     # pass 1: cut every history before the first event the model calls ill-formed (generator slack)
     model, mcr = vlib.run_lines(info["model_limits"], model_lines(cases))
     for i, m in enumerate(model):
@@ -858,14 +879,14 @@ def run(ctx):
                 "max-8..max+9 and 3*max bytes by registered and unregistered senders; every header padding 0..7 x both byte orders x lengths max-9..max+9 (288 histories); authenticated-but-unregistered and unauthenticated connections holding "
                 "incomplete slots; calls carrying a REPLY_SERIAL refused at the limit / as duplicates; configuration reloads in mid-history (ReloadConfig after rewriting the file) "
                 "that put every count at, one below and one above the new limit, raise / lower max_incomplete_connections while accepting is paused / on (incl. the "
-                "daemon's assertion), change max_message_size under old and new connections; one reply-timeout history; random histories of 15-40 events (40% with reloads) "
+                "daemon's assertion), change max_message_size under old and new connections; a callee leaving with k of the caller's calls outstanding, under the default (infinite) and under finite reply_timeouts (timer running); a third of the random and all call/departure targeted histories also under reply_timeout=120000..3600000 ms; one reply-timeout history; random histories of 15-40 events (40% with reloads) "
                 "over up to ~8 connections of 4 users, 2-4 names, 4 match rules, limits drawn from 1-4 or 64, max_message_size 600/777/1024; "
                 "non-trivial = at least one LimitsExceeded refusal, not-accepted connection or bus-initiated disconnection; distinct = distinct (limits, events)",
         "samples": [{"limits": list(cases[i][0]), "events": cases[i][1][:40], "implementation_last": (impl[i][0] or ["-"])[-1]} for i in range(0, len(cases), stepn)][:10],
         "input_distribution": dist, "traces_validated_against_impl": validated, "events_compared": stats["events"],
         "event_kinds": stats["kinds"], "limit_refusals_by_event_kind": stats["refusals"], "connections_not_accepted": stats["not_accepted"],
         "bus_initiated_disconnections": stats["closed_by_bus"], "daemon_aborts_predicted_and_seen": stats.get("daemon_aborts_predicted", 0), "noreply_errors": stats["noreply"], "probes": stats["probes"], "recorded_deviations_seen": stats["recorded_deviations"],
-        "disagreements_checked": len(rep.violations), "exhaustive": False,
+        "histories_under_finite_reply_timeout": sum(1 for c in cases if c[2] is not None), "disagreements_checked": len(rep.violations), "exhaustive": False,
         "explanation": "PROVED (Coq, all histories, all limit values >= 1): the model's counters equal the true counts and stay within the limits (also the number of "
                        "unauthenticated connections); a plain request answered LimitsExceeded / a connection not accepted leaves the model state unchanged (refuted for method calls that "
                        "carry a REPLY_SERIAL: C13-D2, exact effect proved); refused exactly when the demanded resource's true count is at its limit (the literal 'unauthenticated' reading "
